@@ -63,7 +63,9 @@ def X1(annot=False):
                        'counts': [{'value': 9, 'meta': None}]},
                       # links the base entry to a base synset the entry has no sense in otherwise
                       mk.sense(P + 's1', B + 'ss3')],
-           'forms': [{'writtenForm': 'alphax', 'id': P + 'f9'}]}
+           # (the new form differs from its normalised form 'alphax': look-ups by the normalised form must
+           # respect the form's owner as well)
+           'forms': [{'writtenForm': 'Álphax', 'id': P + 'f9'}]}
     xe1['senses'].insert(1, {'id': B + 's2', 'external': True})       # stub: relation target
     if annot:
         xe1['lemma'] = {'external': True, 'tags': [{'text': 'xtagtext-lemma', 'category': 'xc'}],
@@ -98,7 +100,8 @@ def Y1():
 
 def B1():
     P = 'b-'
-    return mk.lexicon('b', '1', 'es', 'Dependent B', requires=[{'id': 'a', 'version': '1'}],
+    # (depends on a plain lexicon and on a lexicon *extension*)
+    return mk.lexicon('b', '1', 'es', 'Dependent B', requires=[{'id': 'a', 'version': '1'}, {'id': 'x', 'version': '1'}],
                       entries=[mk.entry(P + 'e1', 'alfa', 'n', senses=[mk.sense(P + 's1', P + 'ss1')]),
                                mk.entry(P + 'e2', 'alpha', 'n', senses=[mk.sense(P + 's2', P + 'ss2')])],
                       synsets=[mk.synset(P + 'ss1', 'n', 'i1', definitions=['alfa uno']),
@@ -132,8 +135,9 @@ def resources(annot=False):
         'X1': mk.resource([X1(annot)], V), 'Y1': mk.resource([Y1()], V),
         'B1': mk.resource([B1()], V), 'C1': mk.resource([C1()], V),
         'BC': mk.resource([B1(), C1()], V),
+        'AX': mk.resource([A1(), X1(annot)], V),      # a base and its extension in one file
     }
 
 
-FORMS = ['alpha', 'alphas', 'alphax', 'beta', 'beta2', 'gamma', 'delta', 'alfa', 'nothing']
+FORMS = ['alpha', 'alphas', 'alphax', 'Álphax', 'beta', 'beta2', 'gamma', 'delta', 'alfa', 'nothing']
 SPEC = {'A1': 'a:1', 'A2': 'a:2', 'X1': 'x:1', 'Y1': 'y:1', 'B1': 'b:1', 'C1': 'c:1'}
